@@ -123,5 +123,55 @@ def handle : List String → Option String
         k = G.length && resOk && orthOk
       let norms := s2.pairs.map (fun p => norm p.residue)
       pure s!"{if restart then 1 else 0} {s2.basis.length} {s2.info.code} {s2.niter} {returnValue c s2} {s2.conv.length} {joinSp (s2.conv.map (fun b => if b then "1" else "0"))} {spanok} {if eigok then 1 else 0} | {joinSp (norms.map fbits)} | {joinSp (s2.opBasis.map showFloats)}"
+  | "recall" :: n :: nev :: mx :: ini :: co :: rule :: maxit :: tol :: pinfo :: pniter :: mb :: rest => do
+      -- a call with maxit ∈ {0, 1} on a USED solver object: `computeWithGuess` starts from the state the previous call left behind
+      let n ← parseNat? n; let nev ← parseNat? nev; let mx ← parseNat? mx; let ini ← parseNat? ini; let co ← parseNat? co
+      let rule ← parseInt? rule; let maxit ← parseNat? maxit; let tol ← ofBits? tol; let pinfo ← parseNat? pinfo; let pniter ← parseNat? pniter
+      let mb ← parseNat? mb
+      let (B, rest) ← cols? n mb rest
+      let (t, rest) ← takeN? 1 rest; let mw ← parseNat? (t.headD "")
+      let (W, rest) ← cols? n mw rest
+      let (t, rest) ← takeN? 1 rest; let kp ← parseNat? (t.headD "")
+      let (th, rest) ← vec? kp rest
+      let (X, rest) ← cols? n kp rest
+      let (Rp, rest) ← cols? n kp rest
+      let (t, rest) ← takeN? 1 rest; let nfl ← parseNat? (t.headD "")
+      let (fl, rest) ← takeN? nfl rest
+      let (acols, rest) ← cols? n n rest
+      let (t, rest) ← takeN? 1 rest; let g ← parseNat? (t.headD "")
+      let (G, rest) ← cols? n g rest
+      let (hd, rest) ← takeN? 2 rest
+      let ok2 ← parseNat? (hd.headD ""); let k2 ← parseNat? (hd.getD 1 "")
+      let (th2, rest) ← vec? k2 rest
+      let (Y2, _) ← cols? k2 k2 rest
+      let A := matOfCols n acols
+      let c : Cfg := { nev := nev, maxSize := mx, initSize := ini, corrSize := co }
+      let K0 := kern A
+      let pinf : Info := match pinfo with | 0 => .successful | 1 => .notComputed | 2 => .notConverging | _ => .numericalIssue
+      -- the used object: search space, Ritz values / vectors, flags, status and iteration count of the previous call
+      let prev : St Float (Vec Float) :=
+        { basis := B, opBasis := W,
+          pairs := List.zipWith (fun θ xr => ({ value := θ, small := [], vector := xr.1, residue := xr.2 } : Pair Float (Vec Float))) th.toList (List.zip X Rp),
+          conv := fl.map (fun t => t == "1"), niter := pniter, info := pinf, sizes := [] }
+      let K : Kern Float (Vec Float) := { K0 with eig := (fun _ => (ok2 = 1, th2.toList, Y2.map Array.toList)) }
+      let d := diagOf A
+      let guess := if g = 0 then setupInitialSearchSpace d c.initSize rule else G
+      let (s2, ret) := computeWithGuess K c (dprCorrection d co) guess rule maxit tol prev
+      -- the recorded eigen-decomposition against the model's own small matrix (first Rayleigh–Ritz step of this call)
+      let eigok : Bool :=
+        if maxit = 0 then k2 = 0 else
+        let sU := updateOperatorBasisProduct K (initializeSearchSpace guess prev)
+        let Gm := smallMatrix K sU
+        let gmax := Gm.foldl (fun m col => col.foldl (fun m x => if Float.abs x > m then Float.abs x else m) m) 0.0
+        let ycols := Y2.map Array.toList
+        let k := ycols.length
+        let resOk := (List.zip th2.toList ycols).all (fun (θ, y) =>
+          (List.range k).all (fun i =>
+            let gy := (List.range k).foldl (fun acc j => acc + ((Gm.getD j []).getD i 0.0 + (Gm.getD i []).getD j 0.0) / 2.0 * y.getD j 0.0) 0.0
+            Float.abs (gy - θ * y.getD i 0.0) ≤ 1e-9 * (1.0 + gmax)))
+        k = Gm.length && resOk && orthoDev Y2 ≤ 1e-9
+      let ev := eigenvalues c s2
+      let norms := s2.pairs.map (fun p => norm p.residue)
+      pure s!"{s2.info.code} {s2.niter} {ret} {s2.conv.length} {joinSp (s2.conv.map (fun b => if b then "1" else "0"))} {ev.length} {joinSp (ev.map fbits)} {if eigok then 1 else 0} | {joinSp (norms.map fbits)} | {joinSp (s2.opBasis.map showFloats)}"
   | _ => none
 end Drv.C15
